@@ -251,6 +251,16 @@ class CoroutineProcessor(Processor):
                 self._promises[gen].value = exception.value
                 del self._promises[gen]
                 continue        # Do not rotate if last item was popped
+            except BaseException:
+                # The coroutine is over. Drop it and bring None back to
+                # the front, so that next frame all the remaining
+                # coroutines are executed once, in the same order
+                gen = self._active_queue.popleft()
+                del self._generators[gen]
+                self._kill_queue.discard(gen)
+                del self._promises[gen]
+                self._active_queue.rotate(-self._active_queue.index(None))
+                raise
 
             # Put in wait queue if requested
             if wait is not None and wait > 0:
